@@ -229,6 +229,8 @@ IsEfiItem(o, x) ==
   /\ o.k = "some" /\ o.v.at = x.at /\ o.v.al = 0 /\ o.v.ty = x.ty /\ o.v.phys_start = x.phys_start
   /\ o.v.virt_start = x.virt_start /\ o.v.page_count = x.page_count /\ o.v.att = x.att
 U64Bytes(n) == U32Bytes(n) \o <<0, 0, 0, 0>>
+\* items still to come when k have been consumed (nth may have run past the end)
+EfiRem(p, k) == IF k <= EfiCount(p) THEN EfiCount(p) - k ELSE 0
 \* k = items yielded so far
 AcceptEfiNext(mem, it, k, dead, o) ==
   LET p == EfiParams(mem, it) IN
@@ -239,14 +241,14 @@ AcceptEfiNext(mem, it, k, dead, o) ==
 AcceptEfiLen(mem, it, k, dead, o) ==
   LET p == EfiParams(mem, it) IN
   IF ~EfiValid(p) THEN o.k = "panic"
-  ELSE dead \/ IsVal(o, U64Bytes(EfiCount(p) - k))
+  ELSE dead \/ IsVal(o, U64Bytes(EfiRem(p, k)))
 \* size_hint is a bound, not "the remaining length it reports": any correct bound is accepted
 LE8Small(b) == IF b[5] = 0 /\ b[6] = 0 /\ b[7] = 0 /\ b[8] = 0 THEN LE4(SubSeq(b, 1, 4)) ELSE Far
 AcceptEfiHint(mem, it, k, dead, o) ==
   LET p == EfiParams(mem, it) IN
   IF ~EfiValid(p) THEN o.k \in {"panic", "hint"}
-  ELSE dead \/ (o.k = "hint" /\ LE8Small(o.lo) <= EfiCount(p) - k
-                /\ (o.hi.k = "none" \/ LE8Small(o.hi.v) >= EfiCount(p) - k))
+  ELSE dead \/ (o.k = "hint" /\ LE8Small(o.lo) <= EfiRem(p, k)
+                /\ (o.hi.k = "none" \/ LE8Small(o.hi.v) >= EfiRem(p, k)))
 
 \* reference design: memory_areas() asserts the version; the iterator constructor asserts
 \* d >= 40, d % 8 = 0 and L % d = 0 and fixes entries = L / d; next() reads entry i at i * d
